@@ -219,9 +219,10 @@ MOMENTS = [
 CALLABLES = [("fairlearn/reductions/_exponentiated_gradient/_lagrangian.py", "_PredictorAsCallable", ("__init__",), {}, ("__call__",), set())]
 
 
-def report(rep, label="P", classes=None, conditions=None, table=None):
+def report(rep, label="P", classes=None, conditions=None, table=None, ignore=()):
     """classes / conditions restrict the report (used by the checks of other properties: e.g. C09 asks for F5/F6 of GridSearch only); keys of violations
-    carry the property id of the asking check unless they are one of C19's recorded findings"""
+    carry the property id of the asking check unless they are one of C19's recorded findings.  `ignore` = {(class, condition, attribute)}: effects that are
+    recorded findings of C19 and do not bear on the asking property (they stay reported by C19); every other effect of the condition is still a violation."""
     for entry in (table if table is not None else ESTIMATORS):
         (relpath, cls, fit_methods, helpers), predict_like, write_only = entry[:4], (entry[4] if len(entry) > 4 else PREDICT_LIKE), (entry[5] if len(entry) > 5 else set())
         if classes is not None and cls not in classes:
@@ -239,6 +240,7 @@ def report(rep, label="P", classes=None, conditions=None, table=None):
             full = f"{cls}.{name}"
             if conditions is not None and cond not in conditions:
                 return
+            bad = [item for item in bad if (cls, cond, item[0]) not in ignore]
             if not bad:
                 rep.add_obligation(full, fnbase, "discharged", "ast-effects", 0.0, label)
                 return
